@@ -19,10 +19,21 @@ def main():
     # property packages register translators as tools/extract/x_<name>.py with main(gen_lean, gen_json)
     import importlib
     here = os.path.dirname(os.path.abspath(__file__))
+    # every translator runs even when an earlier one fails (a lexer that hangs on an exemplar statement must not keep the
+    # lexer tables from being regenerated); the failures are raised together at the end
+    failed = []
     for f in sorted(os.listdir(here)):
         if f.startswith('x_') and f.endswith('.py'):
-            m = importlib.import_module('tools.extract.' + f[:-3])
-            info.update(m.main(gen_lean, gen_json) or {})
+            try:
+                m = importlib.import_module('tools.extract.' + f[:-3])
+                info.update(m.main(gen_lean, gen_json) or {})
+            except KeyboardInterrupt:
+                raise
+            except BaseException as e:
+                import traceback
+                failed.append('%s: %s' % (f, traceback.format_exc()[-600:]))
+    if failed:
+        raise RuntimeError('translators failed: ' + ' || '.join(failed))
     return info
 
 
